@@ -78,6 +78,9 @@ def dec(spec):
         return {dec(a): dec(b) for a, b in v}
     if k == 'big':
         return big(*v)
+    if k == 'pkl':
+        import pickletools
+        return pickletools.optimize(pickle.dumps(dec(v[0]), protocol=v[1]))
     raise ValueError(spec)
 
 
